@@ -320,26 +320,46 @@ def check_firewall(ctx, chk):
     fi, ip, s, cn = method_run(ctx, "_generate_firewall",
                                no_inline=("_host_is_vulnerable_to_exploit",))
     G_ = f"{GEN_MOD}:ScenarioGenerator."
-    adds = [ev for ev in s.events if ev.kind == "mcall" and ev.data["name"] == "add"
-            and "['service']" in cn.show(ev.data["args"][0])]
-    ok = len(adds) == 1
-    detail = f"{len(adds)} add site(s)"
-    if ok:
-        ev = adds[0]
-        F = f_show(cn.conj(tuple(c for c in ev.pc if c[0] not in ("inloop", "fact"))))
+    # every site that puts a service into the per-subnet table (a local dict of sets), whichever
+    # way: table[subnet].add(x) in loops, or table.setdefault(subnet, set()).update(<generator>)
+    def into_table(recv):
+        r = recv
+        if r[0] == "mcall" and r[2] in ("setdefault", "get") and r[1][0] == "dictobj":
+            return True
+        return r[0] == "sub" and r[1][0] == "dictobj"
+    sites = []
+    for ev in s.events:
+        if ev.kind != "mcall" or not ev.data["args"] or not into_table(ev.data["recv"]):
+            continue
         loops = [cn.show(ip.loops[c[1]]["iter"]) for c in ev.pc if c[0] == "inloop"]
+        conds = [c for c in ev.pc if c[0] not in ("inloop", "fact")]
+        if ev.data["name"] == "add":
+            sites.append((ev.data["args"][0], loops, conds, ev))
+        elif ev.data["name"] == "update":
+            c = ev.data["args"][0]
+            if c[0] == "comp" and len(c[2]) == 1:
+                sites.append((c[2][0], loops + [cn.show(it) for _, it, _ in c[3]],
+                              conds + [x for _, _, cs in c[3] for x in cs], ev))
+            else:
+                sites.append((c, loops, conds, ev))
+    # (the `set()` initialisation sites add nothing)
+    sites = [x for x in sites if not (x[0][0] == "call" and x[0][1] == "builtins.set")]
+    ok = len(sites) == 1
+    detail = f"{len(sites)} site(s) adding to the per-subnet table"
+    if ok:
+        arg, loops, conds, ev = sites[0]
+        Ff = cn.conj(tuple(conds))
         HK, HV, E = "each(G.hosts)", "G.hosts[each(G.hosts)]", "G.exploits[each(G.exploits)]"
-        want = f"{G_}_host_is_vulnerable_to_exploit(G, {HV}, {E})"
+        want = A(f"{G_}_host_is_vulnerable_to_exploit(G, {HV}, {E})")
         recv = cn.show(ev.data["recv"])
-        ok = F == want and loops == ["G.hosts", "G.exploits"] and \
-            cn.show(ev.data["args"][0]) == f"{E}['service']" and f"[{HK}[0]]" in recv
-        detail = f"{recv[-60:]}.add({cn.show(ev.data['args'][0])}) under {F[:200]}"
-    if len(adds) != 1:
-        # the collection is not written as one `.add(<service>)` site (e.g. update(generator),
-        # a comprehension): that shape is not decoded
+        ok = f_equiv(Ff, want) and loops == ["G.hosts", "G.exploits"] and \
+            cn.show(arg) == f"{E}['service']" and (f"[{HK}[0]]" in recv or f"({HK}[0], " in recv)
+        detail = (f"{recv[-60:]} receives {cn.show(arg)[:80]} under {f_show(Ff)[:200]} in loops "
+                  f"{loops}")
+    if len(sites) != 1:
         chk.undecided("C16.firewall", "subnet_services[subnet] collects the service of every "
                       "exploit some host of the subnet is vulnerable to (all hosts x all exploits)",
-                      f"{detail}; only the single-add-site form is decoded", fi.module.path)
+                      f"{detail}; only a single collecting site is decoded", fi.module.path)
     else:
         chk.ob("C16.firewall", "subnet_services[subnet] collects the service of every exploit some "
                "host of the subnet is vulnerable to (all hosts x all exploits)", ok, detail,
